@@ -61,14 +61,16 @@ ASSUMPTIONS = [
     'other than asyncio\'s FIFO loop and user-supplied async_executor; the no-running-loop path of async_executor (run_until_complete); the '
     're-scheduling of _async_ref while the instance is uninitialised (unreachable on a running loop: the constructor finishes before the '
     'task starts); exceptions raised by the awaitables (Skip included)',
-    'reference identity: every assignment uses a fresh function object (model: a fresh reference id); assigning the SAME function '
-    'object twice (Python compares `refs.get(pname) is not ref`) is not exercised and not modelled; constructor-time references '
+    'the extended model also has obj.param.trigger (of an ordinary parameter whose watcher assigns a plain value; of a linked parameter) '
+    'and the re-assignment of the SAME function object (Python compares `refs.get(pname) is not ref`): correspondence + oracle, no '
+    'theorem; constructor-time references '
     '(initialized=False branches of _async_ref / _resolve_ref) are not modelled; awaitables that raise, Future.set_exception and '
     'user-side cancellation of the awaited future are not modelled',
     'rx pipelines: one input, one `.rx.pipe(async def)` node with a `.rx.watch` callback (watcher deliveries of the unchanged old value on '
     'every input change are modelled, Undefined/None deliveries are not recorded); a plain function returning a coroutine is NOT supported '
     'by rx (no Trigger is created: _resolve_async stores the value and then fails on self._trigger.param), and `param.rx(async_fn)` wraps the '
-    'function object without calling it, so neither is a pipeline through a coroutine; async generators through pipe are not exercised',
+    'function object without calling it, so neither is a pipeline through a coroutine; async generator functions with 1-3 yields are '
+    'piped too (rx theorems cover them); sync generator functions are not',
 ]
 RULE = ('quick: corpus (the witness schedules of the repaired defects) + directed prefix; EVERY schedule of <=2 assignments (coroutine / '
         'async generator with 2 awaits / plain, on 1-2 parameters; completions also before the assignment), a 3-await generator against '
